@@ -257,6 +257,11 @@ def gen_moves(scn, rng):
     for s in servers:
         h = base + [('NodeDown', [s])] + realloc + tick
         out += [h + [('CrashCycle', [k]), ('Restart', [])] for k in range(1, 7)]
+    # the same with placements that became INVALID on a server that stays (its partition
+    # changed, or the allocation document moved the instances to another partition)
+    why = rng.choice([[('SetPartition', [rng.choice(servers), rng.choice(['_default', 'pB'])])],
+                      [('SetAllocs', [rng.randrange(len(scn['allocsets'])) + 1])]])
+    out += [base + why + [('CrashCycle', [k]), ('Restart', [])] for k in range(1, 7)]
     return out
 
 
